@@ -370,7 +370,9 @@ impl<'s, S: Slice<'s>> Pattern<S> {
 
     fn has_leading_text_dot(&self) -> bool {
         if let Some(PatternElement::TextElement { value }) = self.elements.first() {
-            value.as_ref().starts_with('.')
+            // A first line starting with one of these would not be read as a pattern
+            // continuation if it were moved to its own line.
+            value.as_ref().starts_with(['.', '[', '*'])
         } else {
             false
         }
